@@ -194,9 +194,31 @@ class World(object):
             elif n == "x2":
                 obj._log.append(("anydyn2:x2", old, new))
 
-        def dynamic(o, n, old, new):
-            fired("dynamic")
-            obj._rec("dynamic", old, new)
+        twinlog = self.twinlog = []
+
+        class Listener(object):
+            """listener objects with VALUE-based equality: two of them are equal without being the same object; the
+            bound methods l1.on_x and l2.on_x are two handlers"""
+            def __init__(self, me):
+                self.me = me
+
+            def __eq__(self, other):
+                return isinstance(other, Listener)
+
+            def __ne__(self, other):
+                return not isinstance(other, Listener)
+
+            def __hash__(self):
+                return 11
+
+            def on_x(self, o, n, old, new):
+                if self.me == 1:
+                    fired("dynamic")
+                    obj._rec("dynamic", old, new)
+                else:
+                    twinlog.append((old, new))
+        self.l1, self.l2 = Listener(1), Listener(2)
+        dynamic = self.l1.on_x
 
         def observer(ev):
             fired("observe")
@@ -210,7 +232,9 @@ class World(object):
     def register(self, m, on):
         obj = self.obj
         if m == "dynamic":
+            # the mechanism is registered twice: by the bound method of l1 and by the same method of the EQUAL object l2
             obj.on_trait_change(self.h[m], "x", remove=not on)
+            obj.on_trait_change(self.l2.on_x, "x", remove=not on)
         elif m == "observe":
             obj.observe(self.h[m], "x", remove=not on)
         elif m in ("anydyn", "anydyn2"):
@@ -240,6 +264,7 @@ class World(object):
         from traits.trait_errors import TraitError
         obj = self.obj
         obj._log.clear()
+        del self.twinlog[:]
         pre = self.stored()
         regs = sorted(self.regs)
         exc = ""
@@ -281,6 +306,7 @@ class World(object):
         for mech, old, new in obj._log:
             calls[mech].append([self.tok(old), self.tok(new)])
         regsafter = sorted(self.regs)
+        twin = [[self.tok(a), self.tok(b)] for a, b in self.twinlog]
         # the sibling attribute x2 (same wildcard in the "wild" shape, an undeclared name elsewhere): handlers of x keep
         # quiet, every object-level handler hears of it exactly once
         obj._log.clear()
@@ -296,7 +322,7 @@ class World(object):
         if sorted(mech for mech, _, _ in obj._log if ":" in mech) != sorted(expect):
             stray += 10
         obj._log.clear()
-        return {"regsafter": regsafter, "stray": stray, "cfg": self.cfg, "raising": sorted(obj._raising), "op": op, "v": v, "pre": pre, "post": self.stored(),
+        return {"regsafter": regsafter, "stray": stray, "twin": twin, "cfg": self.cfg, "raising": sorted(obj._raising), "op": op, "v": v, "pre": pre, "post": self.stored(),
                 "exc": exc, "ret": ret, "calls": calls, "regs": regs}
 
 
